@@ -270,16 +270,65 @@ theorem sem_sound (tz : Option Int) (h : Heap) : ∀ n, Sound (sem tz h n) := by
               · simp only [h2]; exact hne
               · simp only [h2]; exact semApply_sound ih (.fn ps b c1 c1 S' ex hex hws hdom hrel hout) hvs
             | _ => exact terr
+    | durLit s => exact .cons (.dur s) .nil
+    | adjust1 e =>
+      simp only [sem]
+      rcases (ih e S ρ (by simpa [WS] using hw) hi).cases with ⟨e, h1, hne⟩ | ⟨v, h1, hv⟩
+      · simp only [h1]; exact hne
+      · simp only [h1]
+        cases hv with
+        | nil => exact .nil
+        | cons hx t =>
+          cases t with
+          | cons _ _ => exact terr
+          | nil =>
+            simp only
+            cases deref h _ with
+            | none => exact terr
+            | some d => exact .cons (.dtv _ _) .nil
+    | adjust2 e z =>
+      simp only [WS, Bool.and_eq_true] at hw
+      simp only [sem]
+      rcases (ih e S ρ hw.1 hi).cases with ⟨e, h1, hne⟩ | ⟨v, h1, hv⟩
+      · simp only [h1]; exact hne
+      · simp only [h1]
+        by_cases hlen : v.length > 1
+        · simp only [if_pos hlen]; exact terr
+        · simp only [if_neg hlen]
+          rcases (ih z S ρ hw.2 hi).cases with ⟨e, h2, hne⟩ | ⟨w, h2, _⟩
+          · simp only [h2]; exact hne
+          · simp only [h2]
+            cases ht : targetOf w with
+            | error er =>
+              show er ≠ Err.unbound
+              intro he; subst he
+              unfold targetOf at ht
+              split at ht
+              · cases ht
+              · split at ht <;> cases ht
+              · cases ht
+            | ok target =>
+              simp only
+              cases hv with
+              | nil => exact .nil
+              | cons hx t =>
+                cases t with
+                | cons _ _ => simp at hlen
+                | nil =>
+                  simp only
+                  cases deref h _ with
+                  | none => exact terr
+                  | some d => exact .cons (.dtv _ _) .nil
 
 /-- when references outside function bodies are restricted too (`exact = false`), `WS` does not
 depend on the callee mode -/
 theorem ws_false_lex (lex : Bool) : ∀ (e : Expr) (S : List Name), WS lex false S e = WS false false S e := by
   intro e
   induction e with
-  | int _ | var _ | empty | dt _ _ => intro S; rfl
+  | int _ | var _ | empty | dt _ _ | durLit _ => intro S; rfl
   | fn ps b ih => intro S; simp only [WS, Bool.false_and]; exact ih _
-  | paren e ih | tzOf e ih | call0 e ih => intro S; simp only [WS]; exact ih S
-  | seq a b iha ihb | add a b iha ihb | sub a b iha ihb | eq a b iha ihb | call a b iha ihb =>
+  | paren e ih | tzOf e ih | call0 e ih | adjust1 e ih => intro S; simp only [WS]; exact ih S
+  | seq a b iha ihb | add a b iha ihb | sub a b iha ihb | eq a b iha ihb | call a b iha ihb | adjust2 a b iha ihb =>
     intro S; simp only [WS]; rw [iha S, ihb S]
   | letE x a b iha ihb | forE x a b iha ihb | someE x a b iha ihb | everyE x a b iha ihb =>
     intro S; simp only [WS]; rw [iha S, ihb (x :: S)]
